@@ -67,6 +67,17 @@ if wave == 'w5':
              "reuse; a container used together with itself or with a subclass instance; a default/optional argument form; a bound "
              "that equals a stored key vs falls between keys; an operation that raises and a later successful one).\n"
              "Prefer one change in the C code and one in the pure-Python code where the property covers both.\n\n")
+elif wave == 'w6':
+    focus = ("To spread independent reviewers over different kinds of defect, your two changes must be of these kinds "
+             "(other kinds are assigned to other reviewers):\n"
+             "  change A: TWO COOPERATING EDITS - a refactoring that touches two places (a helper and one of its callers, a macro "
+             "and one use, a flag set in one function and tested in another, C and Python both 'simplified' in the same way) such that each edit "
+             "alone would be harmless or would be caught by the test suite, but together they break the property in a specific situation.\n"
+             "  change B: a defect tied to OBJECT LIFECYCLE or ERROR RECOVERY - it shows only after a particular earlier event on the same "
+             "object: the container was emptied and reused, was loaded from a state / unpickled / copied (exact-fit capacities, no cached "
+             "sizes), was deactivated to a ghost and reloaded, had an earlier call fail part-way (bad key, bad value, comparison error, "
+             "conflict) and is then used again, or an iterator / lazy sequence / result object outlives a change of its source.\n"
+             "Prefer one change in the C code and one in the pure-Python code where the property covers both.\n\n")
 elif wave and pid in FOCUS:
     fa, fb = FOCUS[pid]
     focus = ("To spread independent reviewers over the code base, your two changes must live in these regions "
